@@ -361,7 +361,7 @@ def meaning(pi, ops, nots, conns, paren):
 
 
 # operands used in second position of two-operand expressions (first position ranges over all), and in three-operand ones
-SUB = [0, 1, 2, 4, 5, 6, 8, 9, 10, 12, 13, 14, 16, 18, 20, 22, 24, 27, 29, 31, 39, 40] if THOROUGH else [0, 1, 5, 8, 12, 24, 29, 31, 40]
+SUB = [0, 1, 2, 4, 5, 6, 8, 9, 10, 12, 13, 14, 16, 18, 20, 22, 24, 27, 29, 31, 38, 39] if THOROUGH else [0, 1, 5, 8, 12, 24, 29, 31, 39]
 NSUB = len(SUB)
 TRI = [0, 1, 12, 8] if THOROUGH else [0, 1, 12]
 NTRI = len(TRI)
